@@ -16,7 +16,8 @@ branch the code takes when a coordinate is not finite, and the correspondence li
 coordinates on small grids where float arithmetic is exact.
 
 `Gen.lean` namespaces `GenX` / `GenXL` are the functions of `Point.Within` rendered over `XF` by the extractor
-(third pass).  Core Lean only.
+(third pass); namespaces `GenO` / `GenOL` are the same rendering with `-` and `/` OVERFLOWING to `±Inf`
+(`subO`, `divO`; fourth pass).  Core Lean only.
 -/
 namespace GeomV.C02
 open GeomV
@@ -112,6 +113,18 @@ def div (a b : XF) : XF :=
     if b.toRat = 0 then (if a.toRat = 0 then nan else signedInf s)
     else if a.toRat = 0 then signedZero s
     else fin (a.toRat / b.toRat)
+
+/-- OVERFLOW of a finite result: a float64 operation whose exact result has magnitude `≥ 2^1024` delivers `±Inf`
+(every rounding mode that rounds to nearest; results between the largest double `2^1024 - 2^970` and `2^1024` are
+not decided here: the `ovf` correspondence lines keep all exact results on multiples of `2^1020`) -/
+def ovf : XF → XF
+  | fin q => if (2 : Rat)^1024 ≤ q then pinf else if q ≤ -(2 : Rat)^1024 then ninf else fin q
+  | a => a
+
+/-- `-` with overflow -/
+def subO (a b : XF) : XF := ovf (sub a b)
+/-- `/` with overflow -/
+def divO (a b : XF) : XF := ovf (div a b)
 
 /-- `math.Min` -/
 def min (x y : XF) : XF :=
